@@ -110,6 +110,7 @@ def evaluate(pid, tag, data, res):
         res.count('kind=%s' % c['kind'])
         res.count('gochannel=%s%s buffer=%s' % ('persistent' if c['persistent'] else 'plain', '+blocking' if c['blocking'] else '', '0' if c['buffer'] == 0 else 'n'))
         res.count('routers=%s' % ('one' if c['one_router'] else 'k'))
+        if c.get('late_on_closed'): res.count('source publishes on the live topic-0 Pub/Sub after its Close (messages in flight downstream)', c['late_on_closed'])
         if any(9 in row for row in c['fans']): res.count('with a passthrough handler (returns the consumed object)')
         nf = 0
         for d in c['log']:
